@@ -27,7 +27,7 @@ func init() {
 	register("RECUR", "every cycle of the repo-internal call graph and every condition-only loop is in the reviewed table with its termination measure", 6, ruleRecur)
 	register("ERRDROP", "no error returned by a repo function (or by the yaml / io / os decoding calls) is discarded", 60, ruleErrDrop)
 	register("FLAGS", "every flag getter in cmd reads a flag that is defined with the same name and type", 19, ruleFlags)
-	register("NARROW", "a narrowing integer conversion of a validated field is covered by a bound in the type's validate", 3, ruleNarrow)
+	register("NARROW", "a narrowing integer conversion of a validated field is covered by a bound in the type's validate; any other integer conversion to a type that cannot hold every source value is one of the reviewed (source type -> target type) pairs", 8, ruleNarrow)
 	register("LOOKUP", "unknown chord symbols and chords without a valid degree are an error before anything is built, printed or played", 3, ruleLookup)
 }
 
@@ -726,6 +726,29 @@ func ruleValidate(c *Ctx) {
 					}
 				}
 				nChecks++
+				// what is looked up is the reference itself: the chord's `extends`, an element of its attribute list
+				var keyv ssa.Value
+				switch x := site.(type) {
+				case *ssa.Lookup:
+					keyv = x.Index
+				case *ssa.Call:
+					if len(x.Call.Args) >= 2 {
+						keyv = x.Call.Args[1]
+					}
+				}
+				if keyv != nil {
+					kl := tr.trace(lval{keyv, f, nil})
+					if fld == "chords" {
+						if n, _, ok := loadedFieldOrField(kl.v); !ok || n != "Extends" {
+							problem = "the existence check on the chord table (" + c.pos(lk.Pos()) + ") does not look up the chord's `extends` name: a dangling parent is not reported"
+						}
+					} else {
+						ac := &affCtx{c: c, fn: f, alias: map[ssa.Value]string{}}
+						if d := ac.describe(kl.v); !strings.Contains(d, ".Attributes") {
+							problem = "the existence check on the attribute table (" + c.pos(lk.Pos()) + ") does not look up the names in the chord's attribute list (" + d + "): an unknown attribute is not reported"
+						}
+					}
+				}
 				for _, g := range guardsOf(lk.Block(), lval{nil, f, nil}) {
 					gl := tr.trace(g.cond)
 					switch x := gl.v.(type) {
@@ -861,7 +884,7 @@ func ruleReject(c *Ctx) {
 			}
 			return false
 		}
-		_, err := f.foldCall(fn, []fval{cs.recv})
+		_, err := f.foldMethod(fn, cs.recv, nil)
 		switch {
 		case ret == nil:
 			c.undec(key, c.pos(fn.Pos()), fname(fn), fmt.Sprintf("validator does not fold for %s: %v", cs.label, err))
@@ -869,6 +892,63 @@ func ruleReject(c *Ctx) {
 			c.bad(key, c.pos(ret.Pos()), fname(fn), fmt.Sprintf("validator accepts %s (its feasible path ends in `return nil`): the nonsense value reaches a MIDI file", cs.label))
 		default:
 			c.ok(key, c.pos(ret.Pos()), fname(fn), cs.label+" is refused")
+		}
+	}
+	// what the validators judge is what was written: at every call of a validating constructor in the reading layers, an
+	// argument is a parsed number or a default, and no comparison of a parsed number with anything decides which (a written
+	// 0 must not be taken for "nothing written" and replaced by a default before the validator sees it)
+	isParse := func(v ssa.Value) bool {
+		ex, ok := v.(*ssa.Extract)
+		if !ok {
+			return false
+		}
+		call, ok := ex.Tuple.(*ssa.Call)
+		if !ok {
+			return false
+		}
+		switch calleeName(&call.Call) {
+		case "util.ParseUint", "util.ParseRat", "strconv.ParseUint", "strconv.Atoi", "strconv.ParseInt":
+			return ex.Index == 0
+		}
+		return false
+	}
+	for _, fn := range c.srcFuncs() {
+		if fn.Pkg == nil {
+			continue
+		}
+		if pk := short(fn.Pkg.Pkg.Path()); pk != "astconv" && pk != "cmd" && pk != "input" {
+			continue
+		}
+		for _, ci := range callsIn(fn) {
+			cn := calleeName(ci.Common())
+			if cn != "note.NewValue" && cn != "op.NewMeter" && cn != "op.NewBPM" {
+				continue
+			}
+			tr := c.plainTracer()
+			for i, a := range ci.Common().Args {
+				c.site(1)
+				problem := ""
+				for _, alt := range tr.alts(lval{a, fn, nil}, 0) {
+					for _, g := range alt.conds {
+						cmp, ok := tr.trace(g.cond).v.(*ssa.BinOp)
+						if !ok {
+							continue
+						}
+						for _, side := range []ssa.Value{cmp.X, cmp.Y} {
+							if _, isK := side.(*ssa.Const); isK {
+								continue
+							}
+							if b, isB := side.Type().Underlying().(*types.Basic); !isB || b.Info()&types.IsInteger == 0 {
+								continue
+							}
+							if dataDependsOn(side, isParse) {
+								problem = "which value is handed over depends on a comparison of the parsed number itself (`" + cmp.String() + "`): a written number can be replaced before the validator sees it"
+							}
+						}
+					}
+				}
+				c.check(problem == "", fmt.Sprintf("%s -> %s|arg%d|as-written", c.ownerName(fn), cn, i), c.pos(ci.Pos()), fname(fn), "the validator is given the number as written (or a default when nothing was written)", fmt.Sprintf("%s: argument %d of %s: %s", fname(fn), i, cn, problem))
+			}
 		}
 	}
 	// Instance.Validate refuses an instance without durations: len(i.Values) == 0 -> error
@@ -1000,6 +1080,14 @@ var reviewedPanicFuncs = map[string]struct {
 	"midix.TrackNoSelectorImpl.Select": {"guarded", "panics on an OpType other than MetaTrack / FixedTrack; the marker interface has exactly these two implementations (OPMAP checks the allocation sites)"},
 	"input/ast.VisitSwitch":            {"guarded", "panics on a node type outside the ten AST types; all arguments are fields of AST nodes built by the generated parser"},
 }
+
+// fmtOnlyPrinters: String methods that panic on a value that failed validation and that the reviewed tree only reaches
+// through fmt verbs; reviewedDirectPrints lists direct calls that were read and found to act on validated values only.
+var fmtOnlyPrinters = map[string]string{
+	"note.CoerceDegreeName.String": "it panics on the coercion of an unknown interval quality, which is what the zero Degree of a chord without a `degree` key has, and modifiers (write conv) run before that chord is refused",
+}
+
+var reviewedDirectPrints = map[string]string{}
 
 // reviewedMustSites: non-constant call sites of wrappers outside initialisers, with the invariant another rule checks.
 var reviewedMustSites = map[string]string{
@@ -1143,6 +1231,31 @@ func ruleMust(c *Ctx) {
 		if _, ok := p0[name]; !ok {
 			// a reviewed function no longer panics: fine, but tell
 			c.ok("inventory|gone|"+name, "", name, "reviewed entry no longer reaches a panic primitive")
+		}
+	}
+	// printers that panic on an unvalidated value are only ever reached through fmt's verbs (fmt recovers a panicking
+	// String method and prints a marker instead), never by a direct call on a value that may not have been validated yet
+	for _, fn := range fns {
+		for _, ci := range callsIn(fn) {
+			callee := staticCallee(ci.Common())
+			if callee == nil {
+				continue
+			}
+			cn := fname(callee)
+			why, listed := fmtOnlyPrinters[cn]
+			if !listed {
+				continue
+			}
+			if _, stillPanics := p0[cn]; !stillPanics {
+				continue
+			}
+			c.site(1)
+			key := "direct|" + c.ownerName(fn) + " -> " + cn
+			if r, ok := reviewedDirectPrints[key]; ok {
+				c.ok(key, c.pos(ci.Pos()), fname(fn), "reviewed: "+r)
+			} else {
+				c.bad(key, c.pos(ci.Pos()), fname(fn), fmt.Sprintf("%s calls %s directly: %s; a direct call panics (crd dies with a stack trace) where the fmt verb used so far printed a marker", fname(fn), cn, why))
+			}
 		}
 	}
 	// call sites of wrappers
@@ -1436,19 +1549,16 @@ func (c *Ctx) checkExtendsAcyclic() {
 				continue
 			}
 			for _, in := range b.Instrs {
-				lk, ok := in.(*ssa.Lookup)
-				if !ok {
-					continue
-				}
-				if _, isMap := lk.X.Type().Underlying().(*types.Map); !isMap {
+				test, ok := setTestOf(in)
+				if !ok || test.result == nil {
 					continue
 				}
 				// same map updated inside the same (innermost) loop as the lookup: the visited set grows as the chain is walked
 				updated := false
 				readsExtends := false
-				walkLoop := innermostLoop(lk.Block())
+				walkLoop := innermostLoop(in.Block())
 				allInstrs(fn, func(in2 ssa.Instruction) {
-					if mu, ok := in2.(*ssa.MapUpdate); ok && mu.Map == lk.X && walkLoop != nil && walkLoop[mu.Block()] {
+					if add, ok := setAddOf(in2); ok && stripChangeType(add.set) == stripChangeType(test.set) && walkLoop != nil && walkLoop[in2.Block()] {
 						updated = true
 					}
 					if inLoop(in2.Block()) {
@@ -1461,16 +1571,9 @@ func (c *Ctx) checkExtendsAcyclic() {
 				})
 				// lookup result used in a condition
 				controls := false
-				for _, ref := range *lk.Referrers() {
-					switch r := ref.(type) {
-					case *ssa.If:
+				for _, ref := range *test.result.Referrers() {
+					if _, ok := ref.(*ssa.If); ok {
 						controls = true
-					case *ssa.Extract:
-						for _, rr := range *r.Referrers() {
-							if _, ok := rr.(*ssa.If); ok {
-								controls = true
-							}
-						}
 					}
 				}
 				if updated && readsExtends && controls {
@@ -1762,7 +1865,7 @@ func ruleNarrow(c *Ctx) {
 				}
 				return false
 			}
-			_, err := f.foldCall(vfn, []fval{recv})
+			_, err := f.foldMethod(vfn, recv, nil)
 			switch {
 			case ret == nil:
 				c.undec(key, c.pos(cv.Pos()), fname(fn), fmt.Sprintf("%s does not fold for %s=%d: %v", vts[owner].Name(), path, limit, err))
@@ -1773,6 +1876,8 @@ func ruleNarrow(c *Ctx) {
 			}
 		})
 	}
+	// every other lossy integer conversion: by (source type -> target type) against the reviewed pairs
+	c.checkNarrowPairs()
 }
 
 func setPath(root fval, path string, v fval) {
